@@ -18,6 +18,10 @@ CHECKS = {
                 technique='bounded-exhaustive enumeration of (message class, data-set length, maximum PDU length, context id, source kind) on the real Association.send, oracle = reference fragmentation rules + reference codecs',
                 text='every length 1..3F+2 for every maxlen 7..40 and every +-2 neighbourhood of kF at 2^k boundaries up to 2^32-1, for bytes / BytesIO / real file sources; complete within the grids',
                 note='sizes capped at 200 kB; trusts vp/ref_cmd.py and vp/ref_pdu.py'),
+    'C07': dict(engine='E1', level='exploration', design_ref='DESIGN.md 3/C07',
+                technique='exhaustive enumeration of every composition (2^(n-1)) of the real fragment list into PDUs (deviation-bounded for n>12), on a fresh real DIMSEDecoder and through StateMachine.dt_2/ar_6',
+                text='all 23 classes x data-set sizes around fragment multiples x every PDV grouping; completion flag checked after every PDU; file-backed reception checked against an independent Part-10 splitter and pydicom',
+                note='fragments in protocol order; file-backed only for C-STORE-RQ; data sets produced with pydicom directly'),
     'C08': dict(engine='E1', level='exploration', design_ref='DESIGN.md 3/C08',
                 technique='bounded-exhaustive enumeration of field values and of repeated-send operation sequences on the real Association.send, command sets parsed by an independent implicit-VR-LE reader',
                 text='23 classes x UID lengths 1..64 x numeric boundary grid x every subset of unset fields x every sequence of <=2/3 changes between sends; complete within the grids',
